@@ -190,14 +190,14 @@ def long_tie_probe(n, pattern, shift):
 
 
 def explore(ctx):
-    K = 4 if ctx.thorough else 3
+    K = 5 if ctx.thorough else 4
     cases = []
     fam = list(range(len(FAMILY)))
     if not ctx.thorough:
         fam = fam[:6] if ctx.seed % 2 == 0 else fam[1:]
     i = 0
     for k in range(1, K + 1):
-        pool = fam if k <= 3 else fam[:4]
+        pool = fam if k <= 3 else (fam[:4] if k == 4 else fam[:3])
         for tup in itertools.product(pool, repeat=k):
             dts = ['int32', 'uint32', 'int64']
             for dt in (dts if k <= 2 else [dts[i % 3]]):
